@@ -1552,6 +1552,26 @@ def switch_bbox_epsg_axis_order""", 'C01.a'),
             return any(x.is_opaque(query) for x in self.layers)
         else:
             return self.this.is_opaque(query)""", 'branches swapped'),
+    M('M-C20n-revert-D34-single', 'mapproxy/cache/tile.py', """                # timestamp and size of a stale tile that was loaded before belong to the old image
+                tile.timestamp = None
+                tile.size = None
+""", "", 'C20.n', 'revert of fix D34 (single tile path)'),
+    M('M-C20n-revert-D34-meta', 'mapproxy/cache/tile.py', """                    tiles[created_tile.coord].cacheable = created_tile.cacheable""",
+      """                    tiles[created_tile.coord].cacheable = bool(created_tile.cacheable)""", 'C20.n', 'revert of fix D34 (meta tile paths)'),
+    M('M-C20n-reset-after-store', 'mapproxy/cache/tile.py', """                tile.source = source
+                # timestamp and size of a stale tile that was loaded before belong to the old image
+                tile.timestamp = None
+                tile.size = None
+                tile.cacheable = source.cacheable
+                tile = self.tile_mgr.apply_tile_filter(tile)
+                if source.cacheable:
+                    self.cache.store_tile(tile)""", """                tile.source = source
+                tile.cacheable = source.cacheable
+                tile = self.tile_mgr.apply_tile_filter(tile)
+                if source.cacheable:
+                    self.cache.store_tile(tile)
+                tile.timestamp = None
+                tile.size = None""", 'C20.n', 'the reset comes after the store: the response has no validators at all / the stored ones are lost'),
     E('E-C15h-swapped-compare', 'mapproxy/util/async_.py', """        if len(args) == 1:
             return self._single_call(func, args[0], use_result_objects)""", """        if 1 == len(args):
             return self._single_call(func, args[0], use_result_objects)""", 'operands swapped'),
